@@ -1339,6 +1339,10 @@ impl Arena {
           return Ok(allocated);
         }
         Err(current) => {
+          // we could not unlink the node we have marked: put it back, otherwise it stays on the list
+          // marked as removed for ever and every traversal waits for it.
+          next_node.store(next_node_val, Ordering::Release);
+
           let (node_size, _) = decode_segment_node(current);
           if node_size == REMOVED_SEGMENT_NODE {
             // the current node is marked as removed, wait other thread to make progress.
@@ -1463,6 +1467,10 @@ impl Arena {
           return Ok(allocated);
         }
         Err(current) => {
+          // we could not unlink the head we have marked: put it back, otherwise it stays on the list
+          // marked as removed for ever and every traversal waits for it.
+          head.store(head_node_size_and_next_node_offset, Ordering::Release);
+
           let (node_size, _) = decode_segment_node(current);
           if node_size == REMOVED_SEGMENT_NODE {
             // The current head is removed from the list, wait other thread to make progress.
@@ -1546,6 +1554,10 @@ impl Arena {
           continue;
         }
         Err(current) => {
+          // we could not unlink the head we have marked: put it back, otherwise it stays on the list
+          // marked as removed for ever and every traversal waits for it.
+          head.store(head_node_size_and_next_node_offset, Ordering::Release);
+
           let (node_size, _) = decode_segment_node(current);
           if node_size == REMOVED_SEGMENT_NODE {
             // The current head is removed from the list, wait other thread to make progress.
